@@ -20,6 +20,7 @@ import (
 	"github.com/apache/skywalking-banyandb/banyand/measure"
 	"github.com/apache/skywalking-banyandb/banyand/verifharness/vlib"
 	"github.com/apache/skywalking-banyandb/pkg/logger"
+	testflags "github.com/apache/skywalking-banyandb/pkg/test/flags"
 	"github.com/apache/skywalking-banyandb/pkg/test/setup"
 )
 
@@ -67,6 +68,7 @@ func startServer(flags []string) (*server, error) {
 		failure = fmt.Errorf("gomega: %s", msg)
 		panic(failure)
 	})
+	testflags.EventuallyTimeout = 90 * time.Second // the sandbox may be heavily loaded: a slow start is not a verdict
 	var s *server
 	func() {
 		defer func() {
